@@ -253,7 +253,7 @@ def call_builtin(ex, n, args, kw):
             ci = ex.repo.classes[c]
             names += list(ci.methods.keys()) + list(ci.attrs.keys())
             c = ci.bases[0] if ci.bases and ci.bases[0] in ex.repo.classes else None
-        names += ['__class__', '__dict__', '__doc__', '__module__', '__init__']
+        names += ['__class__', '__dict__']
         return sorted(set(names))
     if n == 'sum':
         items = ex.iterate(args[0])
@@ -1034,3 +1034,11 @@ def np_linspace(ex, start, stop, num=50, endpoint=True, **kw):
 @ext('numpy.array_equal')
 def np_array_equal(ex, a, b):
     raise Unsupported('array_equal (use element-wise contracts)')
+
+
+@ext('time.time', 'time.perf_counter', 'time.monotonic', 'time.time_ns')
+def t_time(ex):
+    """wall clock: a fresh unconstrained value, tagged so that frame checks can see whether it flows into a result"""
+    v = z3.Real(f'nondet_time!{next(ex.fresh)}')
+    ex.event('nondet', 'time', ex.where())
+    return v
